@@ -467,6 +467,12 @@ class TexNode(object):
         \textit{keep me!}
         """
 
+        # the node itself, wherever the parent holds it; only if it is not
+        # found (e.g. a copy was passed) fall back to a node with equal text
+        for holder in list(self.parent.args) + [self.parent.expr]:
+            if any(c is self.expr for c in holder._contents):
+                holder.remove(self.expr)
+                return
         for arg in self.parent.args:
             if self in arg.contents:
                 arg.remove(self)
@@ -588,6 +594,10 @@ class TexNode(object):
         \item Bye
         \end{itemize}
         """
+        for holder in list(self.expr.args) + [self.expr]:
+            if any(c is child.expr for c in holder._contents):
+                holder.insert(holder.remove(child.expr), *nodes)
+                return
         for arg in self.expr.args:
             if child.expr in arg._contents:
                 arg.insert(arg.remove(child.expr), *nodes)
@@ -841,8 +851,12 @@ class TexExpr(object):
         TexExpr('textbf', [])
         """
         self._assert_supports_contents()
-        index = self._contents.index(expr)
-        self._contents.remove(expr)
+        # prefer the object itself over the first element with equal text
+        index = next((i for i, c in enumerate(self._contents) if c is expr),
+                     None)
+        if index is None:
+            index = self._contents.index(expr)
+        del self._contents[index]
         return index
 
     def _supports_contents(self):
